@@ -6,7 +6,7 @@ LEVEL = "other"
 RETRY_TIMING = True
 JOBS = 16
 UNOPTIMISED_BUILD = True
-ENTRIES = ["addr", "addrnew", "mbox", "mboxes", "mboxname", "ctype", "cdisp", "hparse", "date", "dateparse", "url", "aurl", "resp", "hval", "hname",
+ENTRIES = ["addr", "addrnew", "mbox", "mboxes", "mboxname", "ctype", "cdisp", "hparse", "date", "dateparse", "url", "aurl", "resp", "hval", "hname", "hvaln", "codec",
            "bodys", "bodyb", "bodyenc", "msg", "msgto", "sendmailerr", "msgnofrom", "msgid", "boundary", "attach", "dkim", "dkimbin", "dkimkey", "json", "jsonout", "sinfo",
            "clientid", "creds", "rrclose", "arrclose"]
 CORRESPONDENCE = ("every model function of lean/LettreVerif/Model is total (accepted by Lean's termination checker, no partial definitions); the "
@@ -44,6 +44,8 @@ TEMPLATES = {
     "resp": ["250 ok\r\n", "250-a\r\n250 b\r\n", "550 5.1.1 no\r\n"],
     "hval": ["plain subject", "ünï côdé subject with several words to fold over the seventy-six column limit of a line", "=?utf-8?b?eA==?="],
     "hname": ["X-Custom", "Subject"],
+    "hvaln": ["X-Custom", "X" * 73, "X" * 74, "X" * 75, "X" * 76, "X" * 77, "A"],
+    "codec": ["hello\r\n.\r\n..x\r\n", ".", "\r\n.", "a\n.b\r.c"],
     "bodys": ["hello\r\nworld\r\n", "bare\nlf\n", "ünï\r\n"],
     "bodyb": ["hello\r\nworld\r\n", "\x00\x01\xff"],
     "bodyenc": ["hello\r\n", "ünï", "\x00"],
@@ -68,7 +70,7 @@ TEMPLATES = {
 BOUNDARY_CHARS = ["\x00", "\r", "\n", "\r\n", "\t", " ", "\x7f", "\"", "\\", "<", ">", "@", ":", ";", ",", "(", ")", "[", "]", "=", "?", "%", "é", " ", "\U0001f600", "\xff"]
 SCALE_UNITS = {
     "addr": ["a", "a.", "é"], "mbox": ["a ", "\"", "(", ", "], "mboxes": ["a@b.c, ", ","], "mboxname": ["a", "é", "\"", " "], "ctype": ["a", ";a=b", "\""],
-    "cdisp": ["a", "é", " "], "hparse": ["a", "\"", "; a=\"b\""], "url": ["a", "%41", ":"], "resp": ["250-a\r\n", "2"], "hval": ["a", "a ", "é", " ", "é ", "=?"], "hname": ["a"],
+    "cdisp": ["a", "é", " "], "hparse": ["a", "\"", "; a=\"b\""], "url": ["a", "%41", ":"], "resp": ["250-a\r\n", "2"], "hval": ["a", "a ", "é", " ", "é ", "=?"], "hname": ["a"], "codec": [".\r\n", "a", "\r\n.", "\n.", "."],
     "bodys": ["a", "\n", "a\n", "é", "\r\n"], "bodyb": ["a", "\n", "\x00"], "bodyenc": ["a\r\n", "é"], "msg": ["a", "a ", "\n"], "msgto": ["a"], "msgid": ["a"],
     "boundary": ["a"], "attach": ["a", "é"], "dkim": ["a", "a ", " ", "a\r\n", "\t "], "dkimbin": [" ", "\t ", "a ", " \r\n", "a"], "json": ["[", "\"a", " "], "jsonout": ["a", "\""],
     "sinfo": ["250-AUTH A\r\n", "250-X\r\n"], "clientid": ["a"], "creds": ["a", "é"], "dateparse": ["1", " "], "dkimkey": ["A", "-"],
